@@ -8,6 +8,8 @@
 #ifndef VF_LIBC_H
 #define VF_LIBC_H
 #include <locale.h>
+#include <errno.h>
+#include <float.h>
 
 static char vf_strtod_arg[80];      /* bytes handed to strtod (up to and including the terminator) */
 static size_t vf_strtod_arglen;     /* strlen of that string */
@@ -43,7 +45,7 @@ static struct lconv *vf_localeconv(void)
 }
 static double vf_strtod(const char *s, char **end)
 {
-    size_t i = 0, j, nint = 0, nfrac = 0, n = 0;
+    size_t i = 0, j, nint = 0, nfrac = 0, n = 0, nexp = 0;
     char dp = (char)IN.dp;
     vf_strtod_calls++;
     /* record the argument: reading it also makes CBMC check that it is terminated inside its object */
@@ -61,8 +63,11 @@ static double vf_strtod(const char *s, char **end)
     if (s[i] == 'e' || s[i] == 'E') {
         j = i + 1;
         if (s[j] == '+' || s[j] == '-') j++;
-        if (vf_isdig(s[j])) { while (vf_isdig(s[j])) j++; i = j; }
+        if (vf_isdig(s[j])) { while (vf_isdig(s[j])) { j++; nexp++; } i = j; }
     }
+    /* range errors (C11 7.22.1.3p10): overflow returns +-HUGE_VAL and sets ERANGE, glibc also sets it when the result underflows.
+     * Only a literal with at least three exponent digits can get there inside the 63 characters cJSON forwards, so only those may. */
+    if (nexp >= 3 && (IN.strtod_val > DBL_MAX || IN.strtod_val < -DBL_MAX || (IN.strtod_val < DBL_MIN && IN.strtod_val > -DBL_MIN))) errno = ERANGE;
     if (end) *end = (char *)s + i;
     vf_strtod_consumed = i;
     vf_strtod_ret = IN.strtod_val;
